@@ -142,6 +142,54 @@ func valueEqual(a, b any, path string) (bool, string) {
 
 func jsonCanonOfGo(v any) ([]byte, error) { return json.Marshal(v) }
 
+// equalUpToFloat64 reports whether two JSON documents are equal once every
+// number is rounded to float64 (the narrow shape of the known finding F10).
+func equalUpToFloat64(a, b []byte) bool {
+	va, err1 := decodeJSON(a)
+	vb, err2 := decodeJSON(b)
+	if err1 != nil || err2 != nil {
+		return false
+	}
+	var eq func(x, y any) bool
+	eq = func(x, y any) bool {
+		switch p := x.(type) {
+		case json.Number:
+			q, ok := y.(json.Number)
+			if !ok {
+				return false
+			}
+			f, e1 := p.Float64()
+			g, e2 := q.Float64()
+			return e1 == nil && e2 == nil && f == g
+		case []any:
+			q, ok := y.([]any)
+			if !ok || len(p) != len(q) {
+				return false
+			}
+			for i := range p {
+				if !eq(p[i], q[i]) {
+					return false
+				}
+			}
+			return true
+		case map[string]any:
+			q, ok := y.(map[string]any)
+			if !ok || len(p) != len(q) {
+				return false
+			}
+			for k, v := range p {
+				w, ok := q[k]
+				if !ok || !eq(v, w) {
+					return false
+				}
+			}
+			return true
+		}
+		return x == y
+	}
+	return eq(va, vb)
+}
+
 func attrKeyString(k any) string {
 	switch x := k.(type) {
 	case string:
@@ -185,9 +233,11 @@ func hasBigNumber(raw []byte) bool {
 			if !ok {
 				return true
 			}
-			f, exact := r.Float64()
-			_ = f
-			return !exact
+			_, exact := r.Float64()
+			// beyond 2^53 even exactly representable values are printed
+			// back with a different decimal expansion
+			limit := new(big.Rat).SetInt64(1 << 53)
+			return !exact || new(big.Rat).Abs(r).Cmp(limit) > 0
 		case []any:
 			for _, e := range t {
 				if walk(e) {
@@ -217,7 +267,7 @@ func Compare(got *signature.EnvelopeContent, w *Want) []Diff {
 			// identical bytes are equal whatever they are
 		} else if eq, d := JSONEqual(w.Payload, got.Payload.Content); !eq {
 			sig := "payload/json-value"
-			if hasBigNumber(w.Payload) {
+			if hasBigNumber(w.Payload) && equalUpToFloat64(w.Payload, got.Payload.Content) {
 				sig = "jws/payload/number-beyond-float64"
 			}
 			add(sig, "payload differs as a JSON value: %s (asked %s, got %s)", d, clip(w.Payload), clip(got.Payload.Content))
@@ -311,7 +361,7 @@ func CompareAttrs(isJWS bool, got, want []signature.Attribute) []Diff {
 		}
 		if !equal {
 			sig := "attr/value"
-			if isJWS && hasBigNumber(w.canon) {
+			if isJWS && hasBigNumber(w.canon) && equalUpToFloat64(g.canon, w.canon) {
 				sig = "jws/extattr/number-beyond-float64"
 			}
 			add(sig, "attribute %s value %s (%T), asked %s (%T)", k, clip(g.canon), g.raw, clip(w.canon), w.raw)
